@@ -148,6 +148,7 @@ macro_rules! sequences {
 }
 sequences!(mp, mapper);
 sequences!(rc, rmapper);
+sequences!(of, omapper);
 
 /// map 4KiB into an empty region -> unmap -> clean_up of that page: exactly the tables the map created are freed
 /// again and the neighbours' translations are untouched (MappedPageTable).
